@@ -95,7 +95,8 @@ def case_handlers(prog, params):
         tail = SymStr.fresh('dtail', ln_[0], cons, exact_len=ln_[0], alphabet=[b for b in range(0x20, 0x7f) if b != 0x2d]) if ln_[0] else S('')
         val = SymStr.fresh('pbody', ln_[1], cons, exact_len=ln_[1], alphabet=[b for b in range(256) if b != 0x2d]) if ln_[1] else S('')
         disp = S(params['disp_prefix']).concat(tail)
-        bsym = S('--QQ\r\nContent-Disposition: ').concat(disp).concat(S('\r\n\r\n')).concat(val).concat(S('\r\n--QQ--\r\n'))
+        eol = params.get('eol', '\r\n')
+        bsym = S('--QQ' + eol + 'Content-Disposition: ').concat(disp).concat(S(eol + eol)).concat(val).concat(S(eol + '--QQ--' + eol))
         st.pc.extend(cons); sy['body'] = bsym
         req = Struct('Request', req.fields[:4] + (bsym,))
     elif params.get('body_sym'):
@@ -358,6 +359,8 @@ def main():
         for dp, ln_ in [(dp, ln_) for dp in ('form-data; name=', 'form-data', 'form-data; name=a; filename=', 'attachment; filename=', 'x; name=', '') for ln_ in ((2, 2), (0, 1))]:
             t_ = '/form-multipart-enctype-post-method'
             cases.append(dict(lens=ln_, ob='handlers', entry=entry, method='POST', fixed_target=t_, tlen=len(t_), ctype='multipart/form-data; boundary=QQ', body_template='multipart', disp_prefix=dp, first=None, range='none'))
+        for ln_ in ((0, 0), (0, 1), (1, 2)):      # bare LF line terminators (hand-written clients)
+            cases.append(dict(lens=ln_, eol='\n', ob='handlers', entry=entry, method='POST', fixed_target='/form-multipart-enctype-post-method', tlen=35, ctype='multipart/form-data; boundary=QQ', body_template='multipart', disp_prefix='form-data; name=', first=None, range='none'))
     for entry in ('process', 'process_request'):
         for app in (('abstract', 'real') if entry == 'process' else ('real',)):
             for reqs in ('GET /a HTTP/1.1\r\nHost: x\r\n\r\n', 'GET / HTTP/1.1\r\n\r\n', 'BAD\r\n\r\n', 'GET /a HTTP/1.1\r\nRange: bytes=0-0\r\n\r\n'):
